@@ -121,14 +121,9 @@ def _check_file(path):
         err = abs(t - fv) / unit
         if err > worst:
             worst = err
-        # the value is a binary double, not a decimal literal: one binary ulp plus 1e-6 unit of slack
-        if err > 1 + Fraction(1, 10**6) + Fraction(math.ulp(v)) / unit:
-            if err > 4:
-                kind = 'deviation-above-4-units'
-            elif prec >= 14:
-                kind = 'deviation-1-to-4-units-at-precision-14-or-15'
-            else:
-                kind = 'deviation-above-1-unit'
+        # the value is a binary double, not a decimal literal: one binary ulp of slack
+        if err > 1 + Fraction(math.ulp(v)) / unit:
+            kind = 'deviation-above-4-units' if err > 4 else 'deviation-1-to-4-units'
             bad.append(('c16/builtin-formatter/' + kind, 'SCPI_dtostre(%r, prec %d) = [%s]: off by %.3f units of the last requested digit' % (v, prec, text, float(err))))
         elif len(samples) < 2 and prec == 15:
             samples.append('SCPI_dtostre(%r, prec 15) = %s (%.3f units off)' % (v, text, float(err)))
